@@ -201,7 +201,7 @@ def fresh_name(base):
 
 
 class SX:
-    def __init__(self, unit, registry, feas_timeout_ms=500):
+    def __init__(self, unit, registry, feas_timeout_ms=1000):
         self.unit = unit
         self.reg = registry
         self.obligations = []
@@ -935,7 +935,7 @@ class SX:
         if isinstance(a, Ref) or isinstance(b, Ref):
             return z3.BoolVal(False)
         for x, y in ((a, b), (b, a)):
-            if isinstance(x, Conc) and not isinstance(x.v, (int, str, float, bool, bytes, type(None), tuple)) and isinstance(y, Val) and isinstance(y.ty, V._None):
+            if isinstance(x, Conc) and not isinstance(x.v, (int, str, float, bool, bytes, type(None))) and isinstance(y, Val) and isinstance(y.ty, V._None):
                 return z3.BoolVal(False)
         # identity on immutable values: only None/True/False identities are meaningful
         la = self.lift(a) if isinstance(a, Conc) else a
@@ -1703,9 +1703,17 @@ class SX:
                             roots.update(fr)
                 elif isinstance(n, (ast.Subscript, ast.Attribute)) and isinstance(n.ctx, (ast.Store, ast.Del)):
                     roots.add(ast.unparse(n.value))
+        frozen_cells = set()
+        for c in st.heap.values():
+            if isinstance(c, dict):
+                for a in c.get("__frozen__", ()):
+                    v = c.get(a)
+                    if isinstance(v, Ref):
+                        frozen_cells.add(v.cell)  # configuration containers the sidecar declares immutable
         if mutated_all:
             for cell in list(st.heap):
-                self.havoc_cell(cell, st)
+                if cell not in frozen_cells:
+                    self.havoc_cell(cell, st)
         else:
             for rexpr in roots:
                 try:
@@ -1716,12 +1724,52 @@ class SX:
                     finally:
                         self.spec_mode -= 1
                 except Unsupported:
+                    if isinstance(node, ast.Name) and all(node.id not in fr for fr in st.frames):
+                        continue  # a name first bound inside the loop (e.g. its target): nothing from before the loop to havoc
                     for cell in list(st.heap):
-                        self.havoc_cell(cell, st)
+                        if cell not in frozen_cells:
+                            self.havoc_cell(cell, st)
                     break
                 if isinstance(v, Ref):
                     self.havoc_cell(v.cell, st)
         self.reg.havoc_ghost_for_loop(self, body_stmts, st)
+
+    def type_untyped_containers(self, stmt, st, kind, iter_info):
+        """an empty [] / set() / {} literal created before the loop and filled inside it has no element type yet: run the
+        body once on a scratch copy (obligations discarded) to learn the type it takes, so that the havoc at the loop head
+        ranges over ALL values of that type instead of leaving it empty"""
+        untyped = [c for c, v in st.heap.items() if isinstance(v, tuple)]
+        if not untyped or getattr(self, "_probing", 0) > 2:
+            return
+        n_obl, n_cov = len(self.obligations), len(self.covers)
+        saved_ord = self.hole_ordinal
+        self._probing = getattr(self, "_probing", 0) + 1
+        found = {}
+        try:
+            s0 = st.fork()
+            starts = [Out("normal", s0)]
+            if kind == "for" and iter_info is not None:
+                k0 = self.fresh(V.Int, "probe_k", s0)
+                starts = iter_info.bind(self, stmt, s0, k0)
+            for so in starts:
+                if so.kind != "normal":
+                    continue
+                for o in self.ex_block(stmt.body, so.st):
+                    for c in untyped:
+                        v = o.st.heap.get(c)
+                        if isinstance(v, Val) and v.ty is not None:
+                            found[c] = v.ty
+        finally:
+            self._probing -= 1
+            del self.obligations[n_obl:]
+            del self.covers[n_cov:]
+            self.hole_ordinal = saved_ord
+        for c, ty in found.items():
+            st.heap[c] = Val(ty, ty.empty())
+            for fr in st.frames:
+                for nm, v in fr.items():
+                    if isinstance(v, Ref) and v.cell == c:
+                        v.ty = ty
 
     def havoc_cell(self, cell, st):
         c = st.getcell(cell)
@@ -1808,6 +1856,7 @@ class SX:
             self.oblige(st, "%s/inv:%s:init" % (base, iname), c, "loop-init", stmt)
         # 2. havoc
         targets = self.assigned_names([stmt.target]) if kind == "for" else set()
+        self.type_untyped_containers(stmt, st, kind, iter_info)
         self.havoc_for_loop(stmt.body, st, targets)
         # locals first assigned inside the loop: declared by the sidecar so that iteration posts can mention them
         for nm, ty in (getattr(self.unit, "loop_locals", None) or {}).items():
@@ -1889,6 +1938,8 @@ class SX:
                             outs.append(bo)
             else:
                 # loop exit: else clause then continue
+                if iter_info is not None and hasattr(iter_info, "on_exit"):
+                    iter_info.on_exit(self, s)
                 if stmt.orelse:
                     outs.extend(self.ex_block(stmt.orelse, s))
                 else:
